@@ -458,7 +458,10 @@ fn build_disclosure(claims: &mut Value, disclosable_claim: &str) -> Result<Discl
         .ok_or(Error::InvalidPathPointer)?;
     if parent.is_array() {
         let parent = parent.as_array_mut().ok_or(Error::InvalidPathPointer)?;
-        let key_index = key.parse()?;
+        let key_index: usize = key.parse()?;
+        if key_index >= parent.len() {
+            return Err(Error::InvalidPathPointer);
+        }
         let value = parent.remove(key_index);
         let disclosure = Disclosure::new(None, value.clone()).build()?;
         parent.insert(key_index, serde_json::json!({ "...": disclosure.digest() }));
